@@ -22,26 +22,28 @@ __all__ = ['VLoop', 'GateWriter', 'Conn', 'Sim', 'NoQuiescence']
 
 
 class CountingExecutor(__import__('concurrent.futures').futures.ThreadPoolExecutor):
-    """ThreadPoolExecutor that knows how many jobs are in flight, so that
-    Sim.settle() can wait for a threaded backend."""
+    """ThreadPoolExecutor for a threaded backend. ``inflight`` counts the
+    Subsystem.execute() calls that have not yet *resumed on the harness loop*
+    (see count_execute) - counting in the worker thread would open a window
+    in which the job is finished but its result not yet queued."""
 
     def __init__(self, max_workers: int = 4) -> None:
         super().__init__(max_workers)
-        import threading
-        self._mu = threading.Lock()
         self.inflight = 0
         self.waited = 0.0
 
-    def submit(self, fn: Any, /, *args: Any, **kwargs: Any) -> Any:
-        with self._mu:
-            self.inflight += 1
-        fut = super().submit(fn, *args, **kwargs)
-        fut.add_done_callback(self._done)
-        return fut
+    def count_execute(self, subsystem: Any) -> Any:
+        orig = subsystem.execute
+        ex = self
 
-    def _done(self, fut: Any) -> None:
-        with self._mu:
-            self.inflight -= 1
+        async def execute(future: Any) -> Any:
+            ex.inflight += 1
+            try:
+                return await orig(future)
+            finally:
+                ex.inflight -= 1
+        subsystem.execute = execute
+        return subsystem
 
 
 class NoQuiescence(Exception):
